@@ -149,7 +149,7 @@ Print Assumptions C06_progress.
    the steps that cannot be observed from outside) are ordinary schedules: every macro run is the run of
    some fine-grained schedule, hence covered by all theorems above. *)
 Theorem C06_macro_runs_are_schedules : forall tab cfg msched (g : cgstate),
-  exists sched, macro_run tab cfg msched g = run (c_start tab) (c_resume tab (cfg_hier cfg)) c_ret c_reg cfg sched g.
+  exists sched, macro_run tab cfg msched g = run (c_start tab) (c_resume tab) c_ret c_reg cfg sched g.
 Proof. exact macro_run_is_run. Qed.
 Print Assumptions C06_macro_runs_are_schedules.
 
